@@ -45,11 +45,13 @@ func init() {
 }
 
 // digestsAgree: every worker process reports the digest of all package-level state at its
-// end (tables built); processes with different histories must agree variable by variable.
+// end (tables built); differences between processes with different histories are recorded in
+// the evidence (they are legitimate for lazily built or pooled state, so they decide nothing).
 func digestsAgree(rc *runCfg, pl *plan, m *merged) error {
 	ref := map[string]string{}
 	refWho := ""
 	n := 0
+	differing := map[string]int{}
 	for k, v := range m.extra {
 		if !strings.HasSuffix(k, "/final-globals-digest") {
 			continue
@@ -68,16 +70,21 @@ func digestsAgree(rc *runCfg, pl *plan, m *merged) error {
 		}
 		for name, d := range dm {
 			if ref[name] != fmt.Sprint(d) {
-				m.violations = append(m.violations, taggedViolation{Violation: mon.Violation{Case: -1, Kind: "package-level state differs between processes that ran different histories",
-					Detail: map[string]any{"variable": name, "process-a": refWho, "process-b": k, "a": ref[name], "b": fmt.Sprint(d)}}, Config: "default"})
-				break
+				differing[name]++
 			}
 		}
 		delete(m.extra, k)
 	}
 	if refWho != "" {
 		delete(m.extra, refWho)
-		m.extra["package-state digest per variable (first 8 bytes; identical in all processes unless a violation says otherwise)"] = ref
+		m.extra["package-state digest per variable at the end of the first process (first 8 bytes)"] = ref
+		if len(differing) > 0 {
+			// recorded, not a verdict: lazily built or pooled state may legitimately differ between
+			// processes that ran different histories; outputs are what the properties constrain
+			m.extra["package-level variables whose final digest differed between processes (recorded, not a violation by itself)"] = differing
+		} else {
+			m.extra["package-level variables whose final digest differed between processes"] = "none"
+		}
 	}
 	if n >= 2 {
 		m.extra["processes whose final package-state digests were compared"] = n
@@ -93,9 +100,9 @@ func init() {
 	// thorough: the same workload once more under the race detector, which also enables
 	// checkptr (pointer-arithmetic and conversion checks on the library and on the harness)
 	plans["C11"].stages = append(plans["C11"].stages, stage{config: "race", thoroughOnly: true})
-	plans["C12"] = simple("programs of 30-200 steps over a pool of 6 Points and 4 Scalars; each step is a random exported operation (all arithmetic, all five multiplications incl. multi-scalar with 0-3 terms, Set, both decoders with valid/non-canonical/invalid input, constructors, readers, scalar arithmetic) whose receiver is an existing slot (possibly one of its arguments) or a fresh zero value; after every step: returned pointer, exported coordinates (Z!=0, curve equation, XY=ZT in big integers), affine point and Bytes against the shadow model, limb bound, every other slot bit-for-bit unchanged; every 16 steps all ordered pairs of the pool are compared with Equal against the model and the package-globals digest against the post-warm-up snapshot. every step is one evaluation; distinct by (step, raw argument snapshots).", 20000)
+	plans["C12"] = simple("programs of 30-200 steps over a pool of 6 Points and 4 Scalars; each step is a random exported operation (all arithmetic, all five multiplications incl. multi-scalar with 0-3 terms, Set, both decoders with valid/non-canonical/invalid input, constructors, readers, scalar arithmetic) whose receiver is an existing slot (possibly one of its arguments) or a fresh zero value; after every step: returned pointer, exported coordinates (Z!=0, curve equation, XY=ZT in big integers), affine point and Bytes against the shadow model, limb bound, every other slot bit-for-bit unchanged; every 16 steps all ordered pairs of the pool are compared with Equal against the model; the package-globals digest is compared with the post-warm-up snapshot and drift is recorded (not a verdict: lazily built and pooled state may change legitimately). every step is one evaluation; distinct by (step, raw argument snapshots).", 20000)
 	plans["C12"].custom = digestsAgree
-	plans["C19"] = simple("programs of 20-120 steps of the history engine with mutation steps interleaved (1 in 4): overwriting previously returned Bytes/BytesMontgomery/Scalar.Bytes slices, ExtendedCoordinates elements (via Set and raw), Points returned by NewIdentityPoint/NewGeneratorPoint (Set, Add, raw limbs), NewScalar results, One()/Zero() receivers; each mutation is followed by a probe round with model-known answers ([k]B through ScalarBaseMult, VarTimeDoubleScalarBaseMult and ScalarMult on a fresh generator, constructors, a decode, SqrtRatio(2,1), Bytes of all pool members) and a package-globals digest comparison; returned slices/elements are checked not to share memory with each other or with the Point; repeated (operation, argument values) observations must give identical bytes; in every second worker process the first use of the precomputed tables happens after mutations. distinct by (step or probe, values).", 10000)
+	plans["C19"] = simple("programs of 20-120 steps of the history engine with mutation steps interleaved (1 in 4): overwriting previously returned Bytes/BytesMontgomery/Scalar.Bytes slices, ExtendedCoordinates elements (via Set and raw), Points returned by NewIdentityPoint/NewGeneratorPoint (Set, Add, raw limbs), NewScalar results, One()/Zero() receivers; each mutation is followed by a probe round with model-known answers ([k]B through ScalarBaseMult, VarTimeDoubleScalarBaseMult and ScalarMult on a fresh generator, constructors, a decode, SqrtRatio(2,1), Bytes of all pool members); every raw write of the harness into a returned value is bracketed by two package-globals digests, which must be identical (exact: nothing but the harness's own stores happens in between), while digest drift across library calls is only recorded; returned slices/elements are checked not to share memory with each other or with the Point; repeated (operation, argument values) observations must give identical bytes; in every second worker process the first use of the precomputed tables happens after mutations. distinct by (step or probe, values).", 10000)
 	plans["C19"].custom = digestsAgree
 }
 
